@@ -826,9 +826,11 @@ class _FPCoreCompileInstance(Visitor):
                 ]
                 for op, rhs in zip(ops, args[2:]):
                     prev_op, prev_args = groups[-1]
-                    if op == prev_op:
+                    if op == prev_op and op != CompareOp.NE:
                         # FPCore's comparisons are n-ary, so a run of one
-                        # operator is a single call
+                        # operator is a single call -- except `!=`, whose
+                        # n-ary form means "all distinct" while a chain
+                        # `a != b != c` only compares neighbours
                         prev_args.append(rhs)
                     else:
                         # a new run starts at the operand the two share
